@@ -504,44 +504,13 @@ theorem failed_without_lost_reply_unchanged (self retries : Nat) (orc : Nat → 
 /-- whatever the oracle: an AddPeer leaves the log alone, or — only if the peer was absent — appends ONE AddVoter -/
 theorem add_once_if_absent (self retries : Nat) (orc : Nat → Tick) (log : List Entry) (p : Nat) :
     (consAddPeer self retries orc log p).2 = log ∨
-    (cfgHas (cfgAt log) p = false ∧ (consAddPeer self retries orc log p).2 = log ++ [.addVoter p]) := by
-  refine consLoop_inv (I := fun l => l = log ∨ (cfgHas (cfgAt log) p = false ∧ l = log ++ [.addVoter p])) ?_ _ _ _ (Or.inl rfl)
-  intro l f hl
-  rcases hl with rfl | ⟨hn, rfl⟩
-  · cases hh : cfgHas (cfgAt l) p with
-    | true => left; rw [rwAddPeer_present hh, List.append_nil]
-    | false =>
-      unfold rwAddPeer
-      simp only [hh, Bool.false_eq_true, if_false]
-      split_ifs
-      · right; exact ⟨trivial, rfl⟩
-      · left; simp
-  · right
-    have : cfgHas (cfgAt (log ++ [.addVoter p])) p = true := by
-      rw [cfgAt_append]; simp only [applyCfg]; rw [cfgHas_cfgPut]; simp
-    rw [rwAddPeer_present this, List.append_nil]
-    exact ⟨hn, rfl⟩
+    (cfgHas (cfgAt log) p = false ∧ (consAddPeer self retries orc log p).2 = log ++ [.addVoter p]) :=
+  add_once_if_absent' self retries orc log p
 
 theorem rm_once_if_present (self retries : Nat) (orc : Nat → Tick) (log : List Entry) (p : Nat) :
     (consRmPeer self retries orc log p).2 = log ∨
-    (cfgHas (cfgAt log) p = true ∧ (consRmPeer self retries orc log p).2 = log ++ [.rmServer p]) := by
-  refine consLoop_inv (I := fun l => l = log ∨ (cfgHas (cfgAt log) p = true ∧ l = log ++ [.rmServer p])) ?_ _ _ _ (Or.inl rfl)
-  intro l f hl
-  rcases hl with rfl | ⟨hn, rfl⟩
-  · cases hh : cfgHas (cfgAt l) p with
-    | false => left; rw [rwRemovePeer_absent hh, List.append_nil]
-    | true =>
-      unfold rwRemovePeer
-      simp only [hh, Bool.not_true, Bool.false_eq_true, if_false]
-      split_ifs
-      · left; simp
-      · right; exact ⟨trivial, rfl⟩
-      · left; simp
-  · right
-    have : cfgHas (cfgAt (log ++ [.rmServer p])) p = false := by
-      rw [cfgAt_append]; simp only [applyCfg]; rw [cfgHas_cfgErase]; simp
-    rw [rwRemovePeer_absent this, List.append_nil]
-    exact ⟨hn, rfl⟩
+    (cfgHas (cfgAt log) p = true ∧ (consRmPeer self retries orc log p).2 = log ++ [.rmServer p]) :=
+  rm_once_if_present' self retries orc log p
 
 /-- an acknowledged AddPeer / RmPeer is committed: the peer is in / out of the configuration of the (single) log, and
     the log is either untouched (the peer was already there / already gone) or one entry longer — any oracle -/
@@ -625,5 +594,54 @@ theorem interleaving_projections (log : List Entry) :
 
 example : cfgIds (cfgAt [.boot [0, 1], .pin (pinCid 1), .addVoter 2, .pin (pinCid 2), .rmServer 0]) = [1, 2] ∧
     cfgIds (cfgAt [.boot [0, 1], .addVoter 2, .rmServer 0, .pin (pinCid 1), .pin (pinCid 2)]) = [1, 2] := by decide
+
+/-! ## fault scripts: what the model admits of a run with injected failures meets the property -/
+
+/-- the full statement for suite `fault`: every fault script outcome and observation the model admits — any plan of
+    refused forwards, lost replies and refused Raft calls, any `commit_retries`, calls at leaders and followers,
+    removal of the leader or of the caller through a lost reply — meets every clause of the property -/
+def C17_fault_full : Prop := ∀ k : FCase, fAllowed k = true → fHolds k = true
+
+theorem fault_allowed_holds (k : FCase) (ha : fAllowed k = true) : fHolds k = true := by
+  unfold fAllowed at ha
+  cases hr : fReplay k.retries k.init [.boot k.init] k.ops with
+  | none => rw [hr] at ha; cases ha
+  | some log =>
+    rw [hr] at ha
+    simp only at ha
+    obtain ⟨R, hc⟩ := fReplay_rel k.ops (fRel_init k.init) hr
+    unfold fHolds fClauses
+    rw [List.all_append, Bool.and_eq_true]
+    exact ⟨hc, fObs_clauses R ha⟩
+
+theorem C17_fault_full_holds : C17_fault_full := fault_allowed_holds
+
+/-- commit_retries = 1, follower 1 adds peer 3: the first forward commits but its answer is lost, the retry is
+    acknowledged; then its removal fails twice at the endpoint (reported as failed, nothing happened) -/
+def lostReplyCase (res2 : Res) (has2 : Has) (peers : List Nat) : FCase :=
+  { retries := 1, init := [0, 1, 2],
+    ops := [.add 1 3 0 [.l] .ok 2 0 .all, .rm 1 3 0 [.f, .f] res2 2 0 has2],
+    obs := { members := [0, 1, 2].map (fun i => { id := i, peers := peers, pins := [], nonvoters := [] }), gone := [] } }
+
+example : fAllowed (lostReplyCase .err .all [0, 1, 2, 3]) = true ∧ fHolds (lostReplyCase .err .all [0, 1, 2, 3]) = true ∧
+    -- a removal acknowledged although every forward failed (redirectToLeader swallowing the error) breaks `ack_in_all`
+    fHolds (lostReplyCase .ok .all [0, 1, 2, 3]) = false ∧ fAllowed (lostReplyCase .ok .all [0, 1, 2, 3]) = false ∧
+    -- a split outcome is refused
+    fHolds (lostReplyCase .err .mixed [0, 1, 2, 3]) = false := by decide
+
+/-! ## concurrent phases (suite `conc`) — validated by the correspondence run, not proved
+
+The full statement: every observation the model explains by SOME order of each phase meets the clauses. Kept as a
+definition; `interleaved_log_agree` / `interleaving_projections` above are what is proved about interleavings. -/
+def C17_conc_full : Prop := ∀ k : CCase, cAllowed k = true → cHolds k = true
+
+/-- a pin at the leader races with the leader's own removal: acknowledged pin present in either order -/
+def concCase (pins : PinMap) : CCase :=
+  { retries := 1, init := [0, 1, 2],
+    phases := [[.rm 0 0 .ok, .pin 0 (pinCid 1) .ok, .pin 1 (pinCid 2) .ok]],
+    obs := { members := [1, 2].map (fun i => { id := i, peers := [1, 2], pins := pins, nonvoters := [] }), gone := [] } }
+example : cAllowed (concCase [(pinCid 1).stored, (pinCid 2).stored]) = true ∧
+    cHolds (concCase [(pinCid 1).stored, (pinCid 2).stored]) = true ∧
+    cHolds (concCase [(pinCid 2).stored]) = false ∧ cAllowed (concCase [(pinCid 2).stored]) = false := by decide
 
 end CV.C17
